@@ -477,6 +477,26 @@ func applyOp(st *tsdb.Store, db string, id uint64, o op) error {
 			return err
 		}
 		return st.DeleteSeries(db, []influxql.Source{&influxql.Measurement{Name: "m"}}, expr)
+	case "tombstat":
+		// a range delete on the data files whose tombstone stats are looked up between the
+		// delete's DeleteRange and its Commit - what the compaction planner's Stats() tick or a
+		// concurrent backup does while a delete is running
+		e := engineOf(st, id)
+		var keys [][]byte
+		for _, s := range o.Series {
+			for f := range fieldNames {
+				keys = append(keys, []byte(keyOf(s, f)))
+			}
+		}
+		sort.Slice(keys, func(i, j int) bool { return bytes.Compare(keys[i], keys[j]) < 0 })
+		return e.FileStore.Apply(func(r tsm1.TSMFile) error {
+			b := r.BatchDelete()
+			if err := b.DeleteRange(keys, o.Lo, o.Hi); err != nil {
+				return err
+			}
+			r.TombstoneStats()
+			return b.Commit()
+		})
 	case "snapshot":
 		return engineOf(st, id).WriteSnapshot()
 	case "snapfail":
@@ -1862,7 +1882,11 @@ func genOps(r *hx.Rand) []op {
 					ser = append(ser, s)
 				}
 			}
-			ops = append(ops, op{Kind: "delete", Series: ser, Lo: lo, Hi: hi})
+			kind := "delete"
+			if snaps > 0 && len(ser) > 0 && r.Chance(25) {
+				kind = "tombstat"
+			}
+			ops = append(ops, op{Kind: kind, Series: ser, Lo: lo, Hi: hi})
 		case k < 9:
 			if r.Chance(12) {
 				// a failed cache snapshot followed by more writes: retained snapshot + live cache
@@ -2000,6 +2024,7 @@ func designed() []caseDesc {
 			caseDesc{Mode: mode, CutMember: -1},                                                          // empty shard
 			caseDesc{Mode: mode, CutMember: -1, Ops: []op{w(pt{0, 0, 1, 2}, pt{2, 3, 5, 1})}},             // cache only
 			caseDesc{Mode: mode, CutMember: -1, Ops: []op{w(pt{0, 0, 1, 2}, pt{1, 1, 3, 5}), {Kind: "snapfail"}, w(pt{0, 0, 2, 4}, pt{2, 3, 5, 1})}}, // retained snapshot + live cache
+			caseDesc{Mode: mode, CutMember: -1, Ops: append(append([]op{}, base...), op{Kind: "tombstat", Series: []int{0}, Lo: 2, Hi: 2})}, // tombstone stats looked up inside the delete
 			caseDesc{Mode: mode, CutMember: -1, Ops: base},                                                // one file
 			caseDesc{Mode: mode, CutMember: -1, Ops: tomb},                                                // pending tombstone
 			caseDesc{Mode: mode, CutMember: -1, Ops: append(append([]op{}, tomb...), w(pt{0, 0, 2, 6}))}, // rewrite after delete, in cache
